@@ -80,7 +80,9 @@ impl Case {
         let mut rng = Rng::stream(seed, id, 0xE1);
         let n_users = 2 + rng.usize(3);
         let n_chans = 4 + rng.usize(7);
-        let start = 100 + rng.below(8) as u32;
+        // (crash / outage histories restart the tower after reorgs of up to 8 blocks that may have been handled only in
+        // part: they keep clear of the 100-block minimum teosd needs to start)
+        let start = if bias == "crash" || bias == "outage" { 112 } else { 100 } + rng.below(8) as u32;
         let world = World::new(&mut rng, n_users, n_chans, start);
         let (s, d, g) = match bias {
             // trackers must live for 100+ blocks
